@@ -41,6 +41,10 @@ def plan(tier):
     return g
 
 
+KF_LOST = 'KF-C06-mp-pool-baseexception-hangs'
+LOST_WORKER_BACKENDS = ('multiprocessing', 'mp')
+
+
 def prefix_plan(tier):
     """C07 only: read-ahead needs dataset lengths well above the buffer size.  These groups ask the invariant for every execution
     *prefix* of <= K steps with n up to 6/8 (no completeness threshold: the claim is bounded by steps, not by termination)."""
@@ -70,7 +74,29 @@ def replay_model(system, backend, mode, model):
 
 
 def uncontrolled_replay(backend, mode, model):
-    """process pools: run the real back end once with marker files; only timing-robust observations"""
+    """process pools: run the real back end once, in a child interpreter under a watchdog (a pool whose worker died - e.g.
+    multiprocessing.Pool after a BaseException-only failure in a task - never answers)"""
+    import subprocess
+    import sys
+    payload = json.dumps(dict(backend=backend, mode=mode, model=dict(params=model['params'])))
+    code = ('import json,sys; from harness import _e2; a=json.loads(sys.argv[1]); '
+            'print("UNCONTROLLED-RESULT "+json.dumps(_e2._uncontrolled_inproc(a["backend"], a["mode"], a["model"])))')
+    env = dict(os.environ, VERIF_SYMBOLIC='0', OMP_NUM_THREADS='1', MKL_NUM_THREADS='1', PYTHONPATH=os.pathsep.join([rt.REPO, rt.VERIF]))
+    try:
+        p = subprocess.run([sys.executable, '-c', code, payload], cwd=rt.VERIF, env=env, capture_output=True, text=True, timeout=60)
+    except subprocess.TimeoutExpired:
+        if mode == 'deadlock':
+            return 'observed', 'the run on the real process pool did not return control within 60 s (the workload takes < 2 s)'
+        return 'uncontrolled', 'the uncontrolled run on the real process pool did not terminate within 60 s (e.g. a pool worker died)'
+    for line in p.stdout.splitlines():
+        if line.startswith('UNCONTROLLED-RESULT '):
+            st, text = json.loads(line[len('UNCONTROLLED-RESULT '):])
+            return st, text
+    return 'uncontrolled', 'the uncontrolled run failed: ' + (p.stderr or p.stdout)[-300:]
+
+
+def _uncontrolled_inproc(backend, mode, model):
+    """run the real back end once with marker files; only timing-robust observations"""
     import tempfile
     import shutil
     import lazy_dataset.parallel_utils as pu
@@ -97,6 +123,8 @@ def uncontrolled_replay(backend, mode, model):
             if name.startswith('finish'):
                 if os.path.getmtime(os.path.join(d, name)) > t_ret + 0.05:
                     late.append(name)
+        if mode == 'deadlock':
+            return 'not-observed', f'the run returned control (end={end})'
         if mode == 'after_return':
             return ('observed' if late else 'not-observed'), f'tasks that finished after control was back with the consumer: {sorted(late)} (end={end})'
         if mode in ('order', 'complete'):
@@ -162,7 +190,7 @@ def custom_replay(payload):
     return ('fails' if status == 'observed' else 'holds'), text
 
 
-def run(pid, tier, seed, ctx, modes_for, known_carve=None, witnesses=2, extra_groups=None):
+def run(pid, tier, seed, ctx, modes_for, known_carve=None, witnesses=2, extra_groups=None, witness_lost=False):
     """modes_for(group) -> list of property queries.  known_carve: {(system, backend, mode): finding id}"""
     log = ctx['log']
     groups = plan(tier) + list(extra_groups or [])
@@ -170,10 +198,15 @@ def run(pid, tier, seed, ctx, modes_for, known_carve=None, witnesses=2, extra_gr
     tmo = 170 if tier == 'quick' else 1500
     for gi, g in enumerate(groups):
         pre = ['readahead_tight'] if g.get('prefix') else ['threshold', 'reach']
+        lostw = g['system'] == 'lpm' and g['backend'] in LOST_WORKER_BACKENDS and rt.known(KF_LOST)
         for mode in pre + list(modes_for(g)):
             spec = dict(g, mode=mode, timeout=tmo, gi=gi)
             spec.pop('prefix', None)
+            if lostw:
+                spec['region'] = 'exclude_lost_worker'      # known finding KF_LOST: its region is carved out of every query ...
             specs.append(spec)
+        if lostw and witness_lost:
+            specs.append(dict(g, mode='deadlock', timeout=tmo, gi=gi, region='only_lost_worker'))      # ... and witnessed by this one
     log(f'[{pid}] E2: {len(specs)} BMC queries over {len(groups)} generated transition systems')
     t0 = time.time()
     results = bmcrun.run_queries(specs, ctx['nproc'], log=log)
@@ -251,6 +284,8 @@ def run(pid, tier, seed, ctx, modes_for, known_carve=None, witnesses=2, extra_gr
                 sample['replay'] = f'{status}: {text}'
                 sample['params'] = model['params']
                 kid = (known_carve or {}).get((g['system'], g['backend'], mode))
+                if r['spec'].get('region') == 'only_lost_worker':
+                    kid = KF_LOST
                 if status == 'observed':
                     if kid and rt.known(kid):
                         known_seen.append((kid, f'{bmcrun.label(r["spec"])}: {text}'))
